@@ -164,41 +164,8 @@ fn eb_row<const N: usize>() {
     std::mem::forget(r);
 }
 
-fn lines_for_range<const N: usize>() {
-    let rows = sorted_rows::<N>();
-    let u = mk_unit(&rows);
-    let unit: &BsUnit = unsafe { &*u.as_ptr() };
-    let begin: u64 = kani::any();
-    let end: u64 = kani::any();
-    kani::assume(begin >= rows[0].address && begin < end);
-    let range = Range { begin, end };
-    let v = unit.find_lines_for_range(&range);
-    bsv!(!v.is_empty(), "a range at or above the first row has rows");
-    let n = v.len();
-    let s = v[0].pos_in_unit;
-    let e = v[n - 1].pos_in_unit;
-    bsv!(s <= e && e < N, "rows are in table order");
-    bsv!(rows[s].address <= begin, "first row covers the range start");
-    bsv!(rows[e].address < end, "last row starts inside the range");
-    let mut k = 1;
-    while k < n {
-        let (a, b) = (v[k - 1].pos_in_unit, v[k].pos_in_unit);
-        bsv!(b == a + 1 || (b == a && n == 2), "consecutive rows, none skipped");
-        k += 1;
-    }
-    let mut j = 0;
-    while j < N {
-        let aj = rows[j].address;
-        if aj > begin && aj < end {
-            bsv!(j >= s && j <= e, "every row that starts inside the range is reported");
-        }
-        j += 1;
-    }
-    kani::cover!(N < 3 || n >= 3, "three or more rows");
-    kani::cover!(n == 2, "two rows");
-    kani::cover!(true, "BSV-END");
-    std::mem::forget(v);
-}
+// NOTE: find_lines_for_range is not decided: it collects a Vec whose length is symbolic (Vec::with_capacity(symbolic) and a
+// push loop with symbolic bounds); even a 2-row table exhausts 20 GB in propositional reduction (DESIGN 11.2).
 
 macro_rules! inst {
     ($name:ident, $f:ident, $n:literal, $unw:literal) => {
@@ -321,41 +288,3 @@ inst!(c04_exact_row_5, exact_row, 5, 9);
 //@ timeout: 900
 inst!(c04_find_eb_4, eb_row, 4, 8);
 
-//@ harness: c04_lines_for_range_4
-//@ property: C04
-//@ obligation: H-C04-b
-//@ tier: thorough
-//@ encodes: BsUnit::{find_lines_for_range, find_place_by_pc, find_place_by_idx}
-//@ symbolic: 4 sorted rows with ties, a non-empty range [begin, end) starting at or above the first row
-//@ bounds: row count 4; unwind 8
-//@ oracle: the rows reported are consecutive table rows from the row covering `begin` to the row covering `end-1`; every row that starts strictly inside the range is among them
-//@ assumes: rows sorted; begin >= first row; begin < end
-//@ timeout: 2400
-//@ mem_gb: 30
-inst!(c04_lines_for_range_4, lines_for_range, 4, 8);
-
-//@ harness: c04_lines_for_range_2
-//@ property: C04
-//@ obligation: H-C04-b
-//@ tier: quick
-//@ encodes: BsUnit::{find_lines_for_range, find_place_by_pc, find_place_by_idx}
-//@ symbolic: 2 sorted rows with ties, a non-empty range [begin, end) starting at or above the first row
-//@ bounds: row count 2; unwind 8
-//@ oracle: as c04_lines_for_range_4
-//@ assumes: rows sorted; begin >= first row; begin < end
-//@ timeout: 1200
-//@ mem_gb: 20
-inst!(c04_lines_for_range_2, lines_for_range, 2, 8);
-
-//@ harness: c04_lines_for_range_3
-//@ property: C04
-//@ obligation: H-C04-b
-//@ tier: thorough
-//@ encodes: BsUnit::{find_lines_for_range, find_place_by_pc, find_place_by_idx}
-//@ symbolic: 3 sorted rows with ties, a non-empty range [begin, end) starting at or above the first row
-//@ bounds: row count 3; unwind 8
-//@ oracle: as c04_lines_for_range_4
-//@ assumes: rows sorted; begin >= first row; begin < end
-//@ timeout: 3600
-//@ mem_gb: 40
-inst!(c04_lines_for_range_3, lines_for_range, 3, 8);
